@@ -221,6 +221,15 @@ def step (st : DSt) (ws : List String) : DSt × List String :=
     | some a, some b, some c, some d, some e =>
       ({ st with cfg := { keepIO := a, dropDetached := b, keepKidExe := c }, atRecv := d, quiet := e }, [])
     | _, _, _, _, _ => (st, ["bad-op"])
+  | ["setexeat", path, e] =>
+    -- the `executor` attribute of the node at `path` is assigned (it is no input: never locked)
+    match parsePath path, parseExe e, st.sess with
+    | some pth, some e, some s =>
+      if st.tainted then (st, ["res unmodelled", "end"]) else
+      match updateAt (fun m => some (m.setOwn { m.own with exe := e })) pth s.node with
+      | some r => reply st { s with node := r } .ok
+      | none => reply st s .notOut
+    | _, _, _ => (st, ["bad-op"])
   | ["cancel"] => onSess st true (outcomeTop st failsF .cancelled)
   | ["lose"] => onSess st true (outcomeTop st failsF .lost)
   | ["cancelat", path] => outcomeAt st failsF .cancelled path
@@ -312,7 +321,9 @@ def step (st : DSt) (ws : List String) : DSt × List String :=
   | ["run"] => onSess st true (runTop st.cfg failsF)
   | ["submit", b] =>
     match parseBool b with
-    | some b => onSess st true (submit b)
+    | some b => onSess st true fun s =>
+        -- without an executor setting `run()` simply runs here and returns the outputs
+        if s.node.own.exe == Exe.none then runTop st.cfg failsF s else submit b s
     | none => (st, ["bad-op"])
   | ["complete"] => onSess st true (complete st.cfg failsF)
   | ["set", k, v] =>
@@ -335,7 +346,9 @@ def step (st : DSt) (ws : List String) : DSt × List String :=
     match k.toNat? with
     | some k => onSess st true fun s => edit s (.disconnect k)
     | none => (st, ["bad-op"])
-  | ["rerun"] => onSess st true fun s => edit s .rerun
+  | ["rerun"] => onSess st true fun s =>
+      -- a run request: refused while the node is out; otherwise (its executor setting was taken away) it runs here
+      if !s.node.own.running && s.node.own.exe == Exe.none then runTop st.cfg failsF s else edit s .rerun
   | _ => (st, ["bad-op"])
 
 def main : IO Unit := PwVerif.Proto.run DSt.init step
